@@ -864,6 +864,8 @@ Section R.
                                     else rv_fdt_receivers r ++ [(id, f2)]) (rv_fdt_current r) (rv_closed r))).
     { destruct I as [A B C]. constructor; cbn; [exact A|apply store_finv; assumption|exact C]. }
     destruct (fr_state f2); cbn [fst snd]; try (split; [exact Istore|apply np_refl]).
+    2: { (* FError: the failed instance is forgotten (D41) *)
+         split; [|apply np_refl]. destruct I as [A B C]. constructor; cbn; [exact A|apply Forall_filter; exact B|exact C]. }
     (* the instance is complete: it becomes the current one *)
     set (r1 := mk_recv (rv_objects r) (rv_completed r) (rv_error r)
                        (filter (fun q => negb (fst q =? id)) (rv_fdt_receivers r)) (f2 :: rv_fdt_current r) (rv_closed r)).
